@@ -42,6 +42,18 @@ CheckOp(ts) ==
         Sum(S) == IF S = {} THEN 0 ELSE LET p == CHOOSE p \in S : TRUE IN errsOf(p[1], p[2]) + Sum(S \ {p})
     IN Sum(pairs)
 
+\* the loop of Check again: whom its errors name
+BlamedOp(ts) ==
+    LET bad(i, k) ==
+          LET r == ts[i].rels[k] IN
+             \/ ~HasT(ts, r.tt)
+             \/ /\ r.tn # ""
+                /\ \/ r.ft # ts[i].name
+                   \/ ~(HasT(ts, r.tt) /\ \E k2 \in DOMAIN ts[IdxOf(ts, r.tt)].rels :
+                                             LET r2 == ts[IdxOf(ts, r.tt)].rels[k2] IN
+                                               r.fn = r2.tn /\ r.tn = r2.fn /\ r2.tt = ts[i].name)
+    IN { <<ts[p[1]].name, ts[p[1]].rels[p[2]].fn>> : p \in {q \in RelsOf(ts) : bad(q[1], q[2])} }
+InvCheckBlame == BlameOK(s, SetToSeq(BlamedOp(s)), 0)
 InvCheckExact == (CheckOp(s) = 0) <=> (Offending(s) = {})
 InvCheckCount == CheckOp(s) >= Cardinality(Offending(s))
 InvCheckAllowed == CheckAllowed(s, s, "ok", CheckOp(s))
